@@ -35,7 +35,7 @@ class FullInitializer(PopulationInitializer):
             yield Individual(
                 representation.create_genotype(
                     random,
-                    decider=FullDecider(random, representation.grammar, max_depth=self.max_depth + 1),
+                    decider=FullDecider(random, representation.grammar, max_depth=self.max_depth),
                 ),
                 representation=representation,
             )
